@@ -77,6 +77,10 @@ func (s *JavaIdentifierListener) EnterClassDeclaration(ctx *parser.ClassDeclarat
 }
 
 func (s *JavaIdentifierListener) ExitClassBody(ctx *parser.ClassBodyContext) {
+	if isInAnonymousClass(ctx) {
+		// the body of `new T() { ... }` written in a member: the enclosing class goes on
+		return
+	}
 	hasEnterClass = false
 	if currentNode.NodeName != "" {
 		nodes = append(nodes, *currentNode)
@@ -109,6 +113,11 @@ func (s *JavaIdentifierListener) ExitConstructorDeclaration(ctx *parser.Construc
 var isOverrideMethod = false
 
 func (s *JavaIdentifierListener) EnterMethodDeclaration(ctx *parser.MethodDeclarationContext) {
+	if isInAnonymousClass(ctx) {
+		// a method of an anonymous class is no member of the class being listed; the member it is
+		// written in stays the current one
+		return
+	}
 	hasEnterClass = true
 
 	startLine := ctx.GetStart().GetLine()
@@ -161,12 +170,19 @@ func (s *JavaIdentifierListener) EnterMethodDeclaration(ctx *parser.MethodDeclar
 }
 
 func (s *JavaIdentifierListener) ExitMethodDeclaration(ctx *parser.MethodDeclarationContext) {
+	if isInAnonymousClass(ctx) {
+		return
+	}
 	currentNode.Functions = append(currentNode.Functions, currentMethod)
 	currentMethod = core_domain.NewJMethod()
 }
 
 func (s *JavaIdentifierListener) EnterAnnotation(ctx *parser.AnnotationContext) {
 	if ctx.QualifiedName() == nil {
+		return
+	}
+
+	if isInAnonymousClass(ctx) {
 		return
 	}
 
@@ -234,11 +250,22 @@ func (s *JavaIdentifierListener) EnterExpression(ctx *parser.ExpressionContext) 
 		statementCtx := ctx.GetParent().(*parser.StatementContext)
 		firstChild := statementCtx.GetChild(0).(antlr.ParseTree).GetText()
 		if strings.ToLower(firstChild) == "return" {
-			if !isInLambdaBody(statementCtx) && hasNullLiteral(ctx) {
+			if !isInLambdaBody(statementCtx) && !isInAnonymousClass(statementCtx) && hasNullLiteral(ctx) {
 				currentMethod.IsReturnNull = true
 			}
 		}
 	}
+}
+
+// isInAnonymousClass reports whether the node stands in the body of an anonymous class
+// (`new T() { ... }`) written in a member or initialiser of the class being listed.
+func isInAnonymousClass(tree antlr.Tree) bool {
+	for node := tree.GetParent(); node != nil; node = node.GetParent() {
+		if _, ok := node.(*parser.ClassCreatorRestContext); ok {
+			return true
+		}
+	}
+	return false
 }
 
 // isInLambdaBody reports whether the statement stands in the body of a lambda expression of the
